@@ -12,6 +12,7 @@ import (
 	"net"
 	"net/http"
 	"net/http/httptest"
+	"os"
 	"regexp"
 	"runtime"
 	"sort"
@@ -90,6 +91,8 @@ type subject struct {
 	// entries (no empty ones) and exactly Exact new referrers are pushed to the
 	// subject, each as the first operation of its worker (or one sequentially).
 	Exact int
+	// PingPong: the subject only sees mutually inverse Push/Delete of one referrer from two goroutines
+	PingPong bool
 }
 
 type fault struct {
@@ -112,17 +115,83 @@ type opRec struct {
 	Call  int64  `json:"call"`
 	Ret   int64  `json:"ret"`
 	Class string `json:"res"` // ok | idxdel | err
-	Err   string `json:"err,omitempty"`
+	// Cancelled: the operation's context was cancelled right after its own index PUT was answered
+	Cancelled bool   `json:"cancelled,omitempty"`
+	Err       string `json:"err,omitempty"`
 }
 
 type planned struct {
-	ref *referrer
-	op  string
+	ref  *referrer
+	op   string
+	pre  func() bool        // optional: wait for a condition; false = skip the operation
+	post func(class string) // optional: called with the outcome
 }
 
 type curOp struct {
 	ref *referrer
 	op  string
+	// cancelAtPut: the operation's context is cancelled by the client-side
+	// transport wrapper at the moment this goroutine (then the leader of a
+	// batch) has received the answer to its PUT of a new referrers index, i.e.
+	// exactly between the index push and the clean-up of the superseded index.
+	cancel      context.CancelFunc
+	cancelAtPut bool
+	cancelled   atomic.Bool
+}
+
+// pingPong drives mutually inverse operations on one referrer from two
+// goroutines: X pushes B, Y deletes B as soon as the index that lists B has
+// been answered (while X's Push may still be cleaning up), X pushes B again
+// once Y's Delete has returned, and so on. The index content of the subject
+// keeps returning to an earlier digest.
+type pingPong struct {
+	tag      string
+	dg       digest.Digest
+	putCount atomic.Int64
+	delDone  atomic.Int64
+	aborted  atomic.Bool
+}
+
+func (pp *pingPong) wait(cond func() bool) bool {
+	for n := 0; n < 50000; n++ {
+		if pp.aborted.Load() {
+			return false
+		}
+		if cond() {
+			return true
+		}
+		time.Sleep(100 * time.Microsecond)
+	}
+	pp.aborted.Store(true)
+	return false
+}
+
+// cancelClient is the HTTP client handed to the Repository.
+type cancelClient struct {
+	inner *http.Client
+	h     *round
+}
+
+func (c *cancelClient) Do(req *http.Request) (*http.Response, error) {
+	resp, err := c.inner.Do(req)
+	const mp = "/v2/" + repoName + "/manifests/"
+	if err == nil && req.Method == http.MethodPut && resp.StatusCode == http.StatusCreated && strings.HasPrefix(req.URL.Path, mp) {
+		if tag := req.URL.Path[len(mp):]; refTagRe.MatchString(tag) {
+			if wv, ok := c.h.byGid.Load(curGid()); ok {
+				if cur := wv.(*wstate).cur.Load(); cur != nil && cur.cancelAtPut && cur.cancelled.CompareAndSwap(false, true) {
+					c.h.mu.Lock()
+					c.h.cancels = append(c.h.cancels, tag)
+					if d := c.h.pendingOld[tag]; d != "" {
+						// the DELETE of the index this PUT superseded will never be sent
+						c.h.failedDel[d] = true
+					}
+					c.h.mu.Unlock()
+					cur.cancel()
+				}
+			}
+		}
+	}
+	return resp, err
 }
 
 type wstate struct {
@@ -172,22 +241,31 @@ type round struct {
 	readerRecs   [][2]int64 // call/return clock of every reader call (under mu)
 	reqs         sync.Map   // id -> *reqInfo
 
-	mu        sync.Mutex
-	drng      *rand.Rand
-	delayMax  map[string]time.Duration
-	log       []*reqInfo
-	ordinal   map[string]int
-	faults    []*fault
-	idxDigest map[digest.Digest]string // digest of every index seen -> referrers tag
-	failedDel map[digest.Digest]bool
-	traces    map[string][]string
-	putOK     map[string]int
-	dirtyPut  []string
-	maxBatch  int
-	merged2   int
-	pending   int
-	dumps     int
-	emptying  int
+	mu         sync.Mutex
+	drng       *rand.Rand
+	delayMax   map[string]time.Duration
+	log        []*reqInfo
+	ordinal    map[string]int
+	faults     []*fault
+	idxDigest  map[digest.Digest]string // digest of every index seen -> referrers tag
+	failedDel  map[digest.Digest]bool
+	traces     map[string][]string
+	putOK      map[string]int
+	dirtyPut   []string
+	maxBatch   int
+	merged2    int
+	pending    int
+	dumps      int
+	emptying   int
+	cancels    []string                 // referrers tags on which a leader was cancelled after its index PUT
+	pendingOld map[string]digest.Digest // tag -> digest of the index the PUT being served supersedes
+	pps        []*pingPong
+	// storm rounds: some referrer-manifest PUTs that arrive while an index GET is
+	// pending are answered only when that GET is being failed, so that their
+	// callers reach the merge object while the error is handed out
+	storm       bool
+	getInflight atomic.Int64
+	faultGen    atomic.Int64
 
 	subjects []*subject
 	refs     []*referrer
@@ -197,6 +275,13 @@ type round struct {
 }
 
 const zeroDigest = "sha256:0000000000000000000000000000000000000000000000000000000000000000"
+
+var staggerMax = func() int {
+	if v, err := strconv.Atoi(os.Getenv("VERIF_C14_STAGGER")); err == nil && v > 0 {
+		return v
+	}
+	return 150
+}()
 
 var refTagRe = regexp.MustCompile(`^sha256-[0-9a-f]{64}$`)
 
@@ -281,6 +366,11 @@ func (h *round) ServeHTTP(w http.ResponseWriter, r *http.Request) {
 		h.log = append(h.log, ri)
 		if ri.Class == "iPUT" && ri.Status == http.StatusCreated {
 			h.putOK[ri.Tag]++
+			for _, pp := range h.pps {
+				if pp.tag == ri.Tag && bytes.Contains(ri.Body, []byte(pp.dg.String())) {
+					pp.putCount.Add(1)
+				}
+			}
 		}
 		h.mu.Unlock()
 	}()
@@ -317,6 +407,26 @@ func (h *round) before(rec *regmodel.Record) *regmodel.Response {
 	}
 	if ri.Phase != phaseDetect && ri.Phase != phaseRun {
 		return nil
+	}
+	if h.storm && ri.Phase == phaseRun {
+		if ri.Class == "iGET" {
+			h.getInflight.Add(1)
+			defer h.getInflight.Add(-1)
+		}
+		if ri.Class == "m" && ri.Method == http.MethodPut && h.getInflight.Load() > 0 {
+			h.mu.Lock()
+			coin := h.drng.IntN(2) == 0
+			stagger := time.Duration(h.drng.IntN(staggerMax)) * time.Microsecond
+			h.mu.Unlock()
+			if coin {
+				g0 := h.faultGen.Load()
+				for n := 0; n < 400 && h.faultGen.Load() == g0 && h.getInflight.Load() > 0; n++ {
+					time.Sleep(50 * time.Microsecond)
+				}
+				time.Sleep(stagger)
+				return nil
+			}
+		}
 	}
 	h.mu.Lock()
 	var d time.Duration
@@ -384,6 +494,9 @@ func (h *round) before(rec *regmodel.Record) *regmodel.Response {
 	h.mu.Unlock()
 	if hit == nil {
 		return nil
+	}
+	if ri.Class == "iGET" {
+		h.faultGen.Add(1)
 	}
 	switch hit.How {
 	case "drop":
@@ -458,15 +571,21 @@ func (h *round) inspectPut(ri *reqInfo) int {
 		return 0
 	}
 	var oldBytes []byte
+	var oldDigest digest.Digest
 	h.reg.WithLock(func() {
 		repo := h.reg.Repos[repoName]
 		if repo == nil {
 			return
 		}
 		if d, ok := repo.Tags[ri.Tag]; ok {
-			oldBytes = repo.Manifests[d].Bytes
+			if m, ok := repo.Manifests[d]; ok {
+				oldBytes, oldDigest = m.Bytes, d
+			}
 		}
 	})
+	h.mu.Lock()
+	h.pendingOld[ri.Tag] = oldDigest
+	h.mu.Unlock()
 	oldSet := map[digest.Digest]bool{}
 	if oldBytes != nil {
 		old, _ := indexEntries(oldBytes)
@@ -622,6 +741,8 @@ func runCase(phase string, i int) worker.Result {
 	case 9:
 		mode = "ping-race-to-tags"
 	}
+	// storm: one subject, many goroutines, the first index GETs all fail while operations keep arriving
+	storm := i%10 == 1
 	pingRace := strings.HasPrefix(mode, "ping-race")
 	apiFirst := mode == "flip-to-tags" || mode == "ping-race-to-tags"
 	skipGC := rng.IntN(3) == 0
@@ -635,19 +756,31 @@ func runCase(phase string, i int) worker.Result {
 	if rng.IntN(4) == 0 {
 		nReaders = 1 + rng.IntN(2)
 	}
+	if storm {
+		nSubj, nWorkers, nReaders = 1, 24+rng.IntN(9), 0
+	}
 
 	h := &round{
 		drng: rand.New(rand.NewPCG(rng.Uint64(), rng.Uint64())), delayMax: map[string]time.Duration{},
 		ordinal: map[string]int{}, idxDigest: map[digest.Digest]string{}, failedDel: map[digest.Digest]bool{},
-		traces: map[string][]string{}, putOK: map[string]int{}, byDigest: map[digest.Digest]*referrer{},
+		traces: map[string][]string{}, putOK: map[string]int{}, byDigest: map[digest.Digest]*referrer{}, pendingOld: map[string]digest.Digest{},
 	}
 	steps := []time.Duration{0, 300 * time.Microsecond, time.Millisecond, 3 * time.Millisecond, 6 * time.Millisecond}
 	for _, c := range []string{"iGET", "iPUT", "iDEL"} {
 		h.delayMax[c] = steps[rng.IntN(len(steps))]
 	}
 	h.delayMax["*"] = steps[rng.IntN(3)]
+	if storm {
+		h.delayMax["iGET"], h.delayMax["*"] = steps[3+rng.IntN(2)], time.Millisecond
+	}
+	// in a quarter of the tag-schema rounds a quarter of the operations get cancelled right after their own index PUT
+	cancelShare := 0
+	if mode == "plain" && !storm && rng.IntN(4) == 0 {
+		cancelShare = 4
+	}
 
 	h.pingRace = pingRace
+	h.storm = storm
 	h.pingSeen = make(chan struct{})
 	profile := regmodel.Profile{ReferrersAPI: apiFirst, DigestHeader: true, Ranges: true, HonourN: true}
 	h.reg = regmodel.New(profile)
@@ -739,6 +872,13 @@ func runCase(phase string, i int) worker.Result {
 				h.delayMax["iGET"], h.delayMax["*"] = 6*time.Millisecond, 0
 			}
 		}
+		if mode != "flip-to-tags" && !pingRace && !storm && !skipGC && sub.N >= 1 && sub.Exact == 0 && rng.IntN(2) == 0 {
+			sub.PingPong = true
+			sub.Dirty, sub.Drain = "clean", false
+			nPre = 1 + rng.IntN(2)
+			// the clean-up DELETE is slow, everything else fast
+			h.delayMax["iDEL"], h.delayMax["iGET"], h.delayMax["iPUT"], h.delayMax["*"] = 6*time.Millisecond, 300*time.Microsecond, 300*time.Microsecond, 0
+		}
 		if sub.Dirty == "" {
 			continue
 		}
@@ -754,7 +894,7 @@ func runCase(phase string, i int) worker.Result {
 			if pingRace && sub.N == 0 && k < 2 {
 				r.Script, r.Owner, r.First = []string{"delete"}, k, true
 			}
-			if sub.Exact > 0 {
+			if sub.Exact > 0 || sub.PingPong {
 				r.Script = []string{}
 			}
 			h.reg.PutManifest(repoName, r.Desc.MediaType, r.Bytes)
@@ -793,6 +933,9 @@ func runCase(phase string, i int) worker.Result {
 	var open []int // subjects that take random operations
 	var seqRefs []*referrer
 	for _, sub := range h.subjects {
+		if sub.PingPong {
+			continue
+		}
 		if sub.Exact == 0 {
 			open = append(open, sub.N)
 			continue
@@ -811,7 +954,11 @@ func runCase(phase string, i int) worker.Result {
 		}
 	}
 	for _, w := range h.workers {
-		for k, n := 0, 1+rng.IntN(4); k < n; k++ {
+		nRefs := 1 + rng.IntN(4)
+		if storm {
+			nRefs = 3 + rng.IntN(2)
+		}
+		for k, n := 0, nRefs; k < n; k++ {
 			subj := open[rng.IntN(len(open))]
 			if rng.IntN(12) == 0 {
 				subj = -1
@@ -847,7 +994,7 @@ func runCase(phase string, i int) worker.Result {
 			if pos[k] >= len(mine[k].Script) {
 				continue
 			}
-			w.ops = append(w.ops, planned{mine[k], mine[k].Script[pos[k]]})
+			w.ops = append(w.ops, planned{ref: mine[k], op: mine[k].Script[pos[k]]})
 			pos[k]++
 			left--
 		}
@@ -859,8 +1006,45 @@ func runCase(phase string, i int) worker.Result {
 			}
 		}
 	}
+	// ping-pong operations come first for their two goroutines
+	for _, sub := range h.subjects {
+		if !sub.PingPong {
+			continue
+		}
+		b := newRef(sub.N)
+		b.Owner = -1
+		pp := &pingPong{tag: sub.Tag, dg: b.Desc.Digest}
+		h.pps = append(h.pps, pp)
+		perm := rng.Perm(nWorkers)
+		x, y := h.workers[perm[0]], h.workers[perm[1]]
+		var xo, yo []planned
+		for it, n := 0, 3+rng.IntN(4); it < n; it++ {
+			it := int64(it)
+			xo = append(xo, planned{ref: b, op: "push",
+				pre: func() bool { return pp.wait(func() bool { return pp.delDone.Load() >= it }) },
+				post: func(class string) {
+					if class == "err" {
+						pp.aborted.Store(true)
+					}
+				}})
+			yo = append(yo, planned{ref: b, op: "delete",
+				pre: func() bool { return pp.wait(func() bool { return pp.putCount.Load() >= it+1 }) },
+				post: func(class string) {
+					if class != "ok" {
+						pp.aborted.Store(true)
+					}
+					pp.delDone.Add(1)
+				}})
+		}
+		x.ops = append(xo, x.ops...)
+		y.ops = append(yo, y.ops...)
+	}
 	// faults
-	if !apiFirst && !pingRace && rng.IntN(2) == 0 {
+	if storm {
+		for k, n := 1, 6+rng.IntN(6); k <= n; k++ {
+			h.faults = append(h.faults, &fault{Class: "iGET", Ordinal: k, How: []string{"500", "503", "429"}[rng.IntN(3)]})
+		}
+	} else if !apiFirst && !pingRace && rng.IntN(2) == 0 {
 		for k, n := 0, 1+rng.IntN(3); k < n; k++ {
 			c := []string{"iGET", "iPUT", "iDEL", "iDEL"}[rng.IntN(4)]
 			hows := []string{"500", "503", "drop", "429"}
@@ -884,11 +1068,10 @@ func runCase(phase string, i int) worker.Result {
 	}
 	h.repo = repo
 	repo.SkipReferrersGC = skipGC
-	defer func() {
-		if t, ok := repo.Client.(*http.Client); ok {
-			t.CloseIdleConnections()
-		}
-	}()
+	if hc, ok := repo.Client.(*http.Client); ok {
+		repo.Client = &cancelClient{inner: hc, h: h}
+		defer hc.CloseIdleConnections()
+	}
 	witness := func(extra map[string]any) map[string]any {
 		h.mu.Lock()
 		defer h.mu.Unlock()
@@ -969,7 +1152,7 @@ func runCase(phase string, i int) worker.Result {
 	}
 	seqAcked := map[int]bool{}
 	for _, r := range seqRefs {
-		if err := pushVia(repo, r); err != nil {
+		if err := pushVia(ctx, repo, r); err != nil {
 			res.Violate("unexplained-error", "sequential push on a healthy registry failed: "+err.Error(), witness(nil))
 			return res
 		}
@@ -1001,20 +1184,33 @@ func runCase(phase string, i int) worker.Result {
 				}
 			}
 			for _, p := range w.ops {
-				if wrng.IntN(3) == 0 {
+				if p.pre != nil && !p.pre() {
+					continue
+				}
+				if p.pre == nil && wrng.IntN(3) == 0 {
 					time.Sleep(time.Duration(wrng.IntN(400)) * time.Microsecond)
 				}
-				w.cur.Store(&curOp{p.ref, p.op})
+				opCtx, cancel := context.WithCancel(ctx)
+				c := &curOp{ref: p.ref, op: p.op, cancel: cancel}
+				if cancelShare > 0 && p.pre == nil && wrng.IntN(cancelShare) == 0 {
+					c.cancelAtPut = true
+				}
+				w.cur.Store(c)
 				rec := opRec{W: w.id, Ref: p.ref.ID, Subj: p.ref.Subject, Op: p.op, Call: h.clock.Add(1)}
 				var err error
 				if p.op == "push" {
-					err = pushVia(repo, p.ref)
+					err = pushVia(opCtx, repo, p.ref)
 				} else {
-					err = deleteVia(repo, p.ref)
+					err = deleteVia(opCtx, repo, p.ref)
 				}
 				rec.Ret = h.clock.Add(1)
 				w.cur.Store(nil)
+				cancel()
+				rec.Cancelled = c.cancelled.Load()
 				rec.Class, rec.Err = classify(err)
+				if p.post != nil {
+					p.post(rec.Class)
+				}
 				if p.op == "push" && p.ref.Subject >= 0 && err == nil {
 					h.pushDone.Add(1)
 				}
@@ -1099,7 +1295,18 @@ func runCase(phase string, i int) worker.Result {
 	// explained: an index-delete error needs a failed DELETE of a superseded index (a new index was
 	// in place); any other error needs a failed index GET or PUT, or a failed DELETE that was itself
 	// the update (emptied referrers list, nothing pushed).
+	h.mu.Lock()
+	cancelsNow := append([]string{}, h.cancels...)
+	h.mu.Unlock()
 	explained := func(tag, class string) bool {
+		if class == "idxdel" {
+			// a leader cancelled after its index PUT cannot send the clean-up DELETE
+			for _, t := range cancelsNow {
+				if t == tag {
+					return true
+				}
+			}
+		}
 		for _, f := range faultsNow {
 			if !f.Fired || f.Tag != tag {
 				continue
@@ -1135,6 +1342,14 @@ func runCase(phase string, i int) worker.Result {
 			nIdxDel++
 		default:
 			nErr++
+		}
+		if o.Cancelled && o.Class == "err" {
+			if o.Op == "push" {
+				// nothing but the clean-up of the superseded index was left to do when the context was cancelled
+				res.Violate("cancel-after-index-push-reported-as-failed-update", fmt.Sprintf("push of referrer %d was cancelled right after its PUT of the new referrers index had been answered (the update had taken effect), yet it returned a plain error instead of nil or a referrers-index-delete error: %s", o.Ref, o.Err), witness(nil))
+				break
+			}
+			continue // a cancelled Delete cannot delete its manifest any more: not acknowledged
 		}
 		// every error must be explained by an injected failure on the same referrers tag
 		tag := ""
@@ -1528,7 +1743,7 @@ func runCase(phase string, i int) worker.Result {
 			res.Count("injected_"+f.Class+"_failures", 1)
 		}
 	}
-	res.Key = fmt.Sprintf("%s|gc=%v|%s", mode, !skipGC, strings.Join(parts, "/"))
+	res.Key = fmt.Sprintf("%s|storm=%v|gc=%v|%s", mode, storm, !skipGC, strings.Join(parts, "/"))
 	res.NT = h.merged2 > 0 && h.pending > 0
 	res.MaxOf("max_batch_size", int64(h.maxBatch))
 	res.Count("index_puts_merging_2plus", int64(h.merged2))
@@ -1546,6 +1761,13 @@ func runCase(phase string, i int) worker.Result {
 	res.Count("referrers_judged", int64(judgedRefs))
 	res.Count("reader_calls_unjudged", readerCalls.Load())
 	res.Count("rounds_"+mode, 1)
+	if storm {
+		res.Count("rounds_storm_of_failing_index_gets", 1)
+	}
+	res.Count("leaders_cancelled_between_index_put_and_cleanup", int64(len(cancelsNow)))
+	for _, pp := range h.pps {
+		res.Count("ping_pong_inverse_pairs_completed", pp.delDone.Load())
+	}
 	for _, s := range h.subjects {
 		if s.Exact > 0 {
 			res.Count("subjects_with_k_surplus_duplicates_and_k_new_referrers", 1)
@@ -1649,7 +1871,7 @@ func curGid() int64 {
 	return g
 }
 
-func pushVia(repo *remote.Repository, r *referrer) error {
+func pushVia(ctx context.Context, repo *remote.Repository, r *referrer) error {
 	rd := bytes.NewReader(r.Bytes)
 	switch r.Via {
 	case 0:
@@ -1663,7 +1885,7 @@ func pushVia(repo *remote.Repository, r *referrer) error {
 	}
 }
 
-func deleteVia(repo *remote.Repository, r *referrer) error {
+func deleteVia(ctx context.Context, repo *remote.Repository, r *referrer) error {
 	if r.Via%2 == 0 {
 		return repo.Delete(ctx, r.Desc)
 	}
